@@ -18,22 +18,25 @@ HARNESS = os.path.join(ROOT, "harness")
 TRIPLE = "x86_64-unknown-linux-gnu"
 
 # which engines run for which property in which tier (native always first)
-THOROUGH_EXTRA = {
+ALL = ["C%02d" % i for i in range(1, 20)]
+# Every check runs in both build profiles: `verif` (debug assertions and overflow checks on) and
+# `release` (both off) - a side effect inside a debug_assert!, or arithmetic that only wraps silently,
+# shows in one of them only.
+THOROUGH_EXTRA = {p: ["release"] for p in ALL}
+for p, more in {
     "C02": ["b64feat", "memcheck"],
     "C03": ["b64feat"],
     "C07": ["miri"],
-    "C08": ["release"],
     "C12": ["asan", "miri"],
-    "C15": ["release", "asan", "miri"],
-    "C16": ["release", "miri"],
+    "C15": ["asan", "miri"],
+    "C16": ["miri"],
     "C18": ["asan"],
     "C19": ["tsan", "miri"],
-}
-QUICK_EXTRA = {
-    "C02": ["b64feat"],
-    "C03": ["b64feat"],
-    "C08": ["release"],
-}
+}.items():
+    THOROUGH_EXTRA[p] += more
+QUICK_EXTRA = {p: ["release"] for p in ALL}
+QUICK_EXTRA["C02"] += ["b64feat"]
+QUICK_EXTRA["C03"] += ["b64feat"]
 
 _built = {}
 
